@@ -544,6 +544,8 @@ def run(ctx: common.Ctx):
             ctx.coverage["unexplained_build_errors"] = rest
     n_graphs, n_mut = (1500, 6) if ctx.thorough else (150, 3)
     batch_spellings(ctx)
+    from .cfg_createdat import batch_createdat
+    batch_createdat(ctx, "C04")
     pickles, per_graph = correspondence(ctx, t, ctx.seed, n_graphs, n_mut)
     n_x = 400 if ctx.thorough else 40
     seeds = [1, 2, 3, 4, 12345] if ctx.thorough else [1, 7, 4242]
